@@ -354,7 +354,7 @@ func runC07(c *Ctx) {
 	r := c.R
 	r.Assume("the proxy processes one client's frames sequentially, so the model state at send time is the state the request must run in, pipelined or not")
 	r.Assume("a USE failing because a host is down during a scripted restart is not judged (only histories without restarts demand success)")
-	r.Require("echoes_checked", "histories", "simultaneous_use_histories", "late_host_histories", "concurrent_failed_use_histories")
+	r.Require("echoes_checked", "histories", "simultaneous_use_histories", "late_host_histories", "concurrent_failed_use_histories", "transient_use_error_histories")
 	n := c.Pick(120, 12000)
 	for i := 0; i < n; i++ {
 		if c.Replay != nil && c.Replay["kind"] == "c07" {
@@ -384,6 +384,11 @@ func runC07(c *Ctx) {
 		for i := 0; i < c.Pick(12, 600); i++ {
 			if c.Mine(i + 1) {
 				c07ConcurrentFailedUse(c, i)
+			}
+		}
+		for i := 0; i < c.Pick(8, 400); i++ {
+			if c.Mine(i + 2) {
+				c07UseAnsweredWithTransientError(c, i)
 			}
 		}
 	}
@@ -579,4 +584,86 @@ func c07ConcurrentFailedUse(c *Ctx, idx int) {
 	}
 	r.Obs("concurrent_failed_use_histories", 1)
 	r.NonTrivial(fmt.Sprintf("concurrent-failed-use/n%d/v%d/%s/gap%d", n, ver, comp, gap/time.Millisecond))
+}
+
+// c07UseAnsweredWithTransientError: the backend answers the USE that the proxy itself sends on its new pooled connections
+// with OVERLOADED / IS_BOOTSTRAPPING (a node that is shedding load or starting up) - for a keyspace that does not exist
+// and for one that does. Whatever the proxy then tells the client: a SET_KEYSPACE answer obliges it to run the client's
+// requests in that keyspace, an error answer leaves the previous keyspace in force; and the missing keyspace can only end
+// in an error.
+func c07UseAnsweredWithTransientError(c *Ctx, idx int) {
+	r := c.R
+	conns := 1 + idx%2
+	comp := []string{"", "lz4"}[(idx/2)%2]
+	scenario := map[string]interface{}{"kind": "c07-use-answered-with-transient-error", "idx": idx}
+	c.Step("c07 USE answered with a transient error idx=%d conns=%d %q", idx, conns, comp)
+	bed, err := px.NewBed(px.BedConfig{Hosts: 1 + idx%2, NumConns: conns, Keyspaces: c07Keyspaces, KeepBodies: true, ReconnectBase: time.Millisecond, ReconnectMax: 5 * time.Millisecond})
+	if err != nil {
+		r.Inconc("c07 transient USE error: cannot start bed: " + err.Error())
+		return
+	}
+	defer bed.Close()
+	cl, err := bed.ReadyClient(primitive.ProtocolVersion4, comp)
+	if err != nil {
+		r.Inconc("c07 transient USE error: handshake: " + err.Error())
+		return
+	}
+	defer cl.Close()
+	opts := &message.QueryOptions{Consistency: primitive.ConsistencyLevelOne}
+	if f, err := cl.Call(1, &message.Query{Query: "USE ks1", Options: opts}, 10*time.Second); err != nil || f.OpCode != primitive.OpCodeResult {
+		r.Inconc("c07 transient USE error: first USE failed")
+		return
+	}
+	cur := "ks1"
+	mkErrs := func(n int) []message.Error {
+		var out []message.Error
+		for i := 0; i < n; i++ {
+			if (i+idx)%2 == 0 {
+				out = append(out, &message.Overloaded{ErrorMessage: "node is overloaded"})
+			} else {
+				out = append(out, &message.IsBootstrapping{ErrorMessage: "node is bootstrapping"})
+			}
+		}
+		return out
+	}
+	for step, target := range []string{fmt.Sprintf("ghost_%d", idx), "ks2", fmt.Sprintf("ghost2_%d", idx), "ks3"} {
+		exists := target == "ks2" || target == "ks3"
+		bed.Cluster.SetUseErrors(target, mkErrs(conns*(1+idx%2)*(1+step%2)))
+		f, err := cl.Call(int16(10+step), &message.Query{Query: "USE " + target, Options: opts}, 30*time.Second)
+		r.Eval(1)
+		if err != nil || f == nil {
+			r.Violate(mon.Violation{Signature: "C07/no-reply/use-answered-with-transient-error", Detail: fmt.Sprintf("USE %s (the backend answers the proxy's own USE with OVERLOADED / IS_BOOTSTRAPPING first): no reply", target), Scenario: scenario})
+			return
+		}
+		ri := DecodeReply(comp, f)
+		switch {
+		case strings.HasPrefix(ri.Kind, "Error"):
+			// the previous keyspace stays in force
+		case ri.Kind == "SetKeyspace" && exists:
+			cur = target
+		case ri.Kind == "SetKeyspace":
+			r.Violate(mon.Violation{Signature: "C07/failed-use-reply/use-answered-with-transient-error/answered-SetKeyspace", Detail: fmt.Sprintf("USE %s - a keyspace that does not exist; the backend answered the proxy's own USE with OVERLOADED / IS_BOOTSTRAPPING and then with 'keyspace does not exist' - was answered SET_KEYSPACE", target), Scenario: scenario})
+			return
+		}
+		for k := 0; k < 4; k++ {
+			tok := NewTok()
+			df, err := cl.CallF(BuildRequest(primitive.ProtocolVersion4, int16(100+step*10+k), KQuery, true, tok, primitive.ConsistencyLevelOne), 15*time.Second)
+			if err != nil || df == nil {
+				r.Violate(mon.Violation{Signature: "C07/no-reply/after-use-answered-with-transient-error", Detail: fmt.Sprintf("request after USE %s got no reply", target), Scenario: scenario})
+				return
+			}
+			di := DecodeReply(comp, df)
+			if di.Kind != "Rows" || !di.HasEcho {
+				r.Violate(mon.Violation{Signature: "C07/data-request-failed/after-use-answered-with-transient-error", Detail: fmt.Sprintf("USE %s was answered %s; the client's keyspace is therefore %q, but its next request was answered %s %q", target, ri.Kind, cur, di.Kind, di.ErrMsg), Scenario: scenario})
+				return
+			}
+			r.Obs("echoes_checked", 1)
+			if di.Echo.Ks != cur {
+				r.Violate(mon.Violation{Signature: "C07/wrong-keyspace/after-use-answered-with-transient-error", Detail: fmt.Sprintf("USE %s was answered %s; the client's keyspace is therefore %q, but its next request ran in %q", target, ri.Kind, cur, di.Echo.Ks), Scenario: scenario})
+				return
+			}
+		}
+	}
+	r.Obs("transient_use_error_histories", 1)
+	r.NonTrivial(fmt.Sprintf("use-answered-with-transient-error/c%d/%s/%d", conns, comp, idx%4))
 }
